@@ -11,6 +11,7 @@
 //! Request:  `id <op> layout=… be=… n= nl= bs= rank= b= kbrk= katk= ktsk= kksg= kksl= ksg=<0|1> sxs= sxa= sxe= [reps=] [sig=]`
 //!           `nzt=<k>` (self-test of the check only): the tsk sub-key is encrypted with NoiseInfos of precision k instead of ktsk
 //!           (core layouts: the keys of `pvh rnd`)
+//!   brk_keys   : C01 key-generation tie of the standard blind-rotation key (secrets, mask words, errors, all cells in loop order)
 //!   brkc_check : C19 tie of the compressed blind-rotation key (same answer fields as `pvh cmp`)
 //!   bstats : per sub-key group `g=<name>:<k>:<scale>:<limb>:<m>:<sum>:<sumsq>:<maxabs>` pooled over `reps` bundles — integer errors
 //!            read off the exact phase of every cell under the clear secret of that sub-key (i128 arithmetic)
@@ -446,6 +447,87 @@ brkc_backend!(brkc_ntt120ref, NTT120Ref);
 brkc_backend!(brkc_fft64avx, FFT64Avx);
 brkc_backend!(brkc_ntt120avx, NTT120Avx);
 
+/// C01 key-generation tie for the standard blind-rotation key: everything the Lean model needs to recompute it bit for bit
+macro_rules! brkkeys_backend {
+    ($fname:ident, $be:ty) => {
+        fn $fname(t: &[&str]) -> String {
+            type BE = $be;
+            let n = kv_us(t, "n");
+            let nl = kv_us(t, "nl").max(1);
+            let bs = kv_us(t, "bs").max(1);
+            let rank = kv_us(t, "rank").max(1);
+            let b = kv_us(t, "b");
+            let kbrk = kv_us(t, "kbrk");
+            let (sxs, sxa, sxe) = (kv_u64(t, "sxs"), kv_u64(t, "sxa"), kv_u64(t, "sxe"));
+            let dnum = (kbrk.div_ceil(b) - 1).max(1);
+            let size = kbrk.div_ceil(b);
+            let module: Module<BE> = Module::<BE>::new(n as u64);
+            let mut scratch: ScratchOwned<BE> = ScratchOwned::alloc(1 << 24);
+            let deg = Degree(n as u32);
+            let noise = NoiseInfos::new(kbrk, 3.2, 19.2).unwrap();
+            let mut sk_glwe = GLWESecret::alloc(deg, Rank(rank as u32));
+            sk_glwe.fill_ternary_prob(0.5, &mut Source::new(seed32(sxs)));
+            let sk_vis = replay_secret(n, rank, Dist::TernaryProb(0.5), &mut Source::new(seed32(sxs)));
+            let mut sk_lwe = LWESecret::alloc(Degree(nl as u32));
+            sk_lwe.fill_binary_block(bs, &mut Source::new(seed32(sxs ^ 0x1111)));
+            let mut skp = module.glwe_secret_prepared_alloc(Rank(rank as u32));
+            module.glwe_secret_prepare(&mut skp, &sk_glwe);
+            let layout = BlindRotationKeyLayout {
+                n_glwe: deg,
+                n_lwe: Degree(nl as u32),
+                base2k: Base2K(b as u32),
+                k: TorusPrecision(kbrk as u32),
+                dnum: Dnum(dnum as u32),
+                rank: Rank(rank as u32),
+            };
+            let mut key = BlindRotationKey::<Vec<u8>, CGGI>::alloc(&layout);
+            module.blind_rotation_key_encrypt_sk(&mut key, &skp, &sk_lwe, &noise, &mut Source::new(seed32(sxe)), &mut Source::new(seed32(sxa)), scratch.borrow());
+            let mut bytes = Vec::new();
+            key.write_to(&mut bytes).unwrap();
+            let mut r: &[u8] = &bytes;
+            let _ = read_u64(&mut r);
+            let len = read_u64(&mut r) as usize;
+            let cols = rank + 1;
+            let mut cells: Vec<String> = Vec::new();
+            for _ in 0..len {
+                let mut g = GGSW::alloc_from_infos(&layout);
+                g.read_from(&mut r).unwrap();
+                for row in 0..dnum {
+                    for col in 0..cols {
+                        cells.push(show_vec(g.at(row, col).data()));
+                    }
+                }
+            }
+            let total = cells.len() * rank * size * n;
+            let mut s = Source::new(seed32(sxa));
+            let words: Vec<String> = (0..total).map(|_| (s.next_i64() as u64).to_string()).collect();
+            let mut xe3 = Source::new(seed32(sxe));
+            let errs: Vec<String> = (0..cells.len())
+                .map(|_| {
+                    let mut ev = poulpy_hal::layouts::VecZnx::alloc(n, 1, size);
+                    poulpy_hal::api::VecZnxAddNormal::vec_znx_add_normal(&module, b, &mut ev, 0, noise, &mut xe3);
+                    show_vec(&ev)
+                })
+                .collect();
+            let sklwe: Vec<String> = sk_lwe.data().at(0, 0).iter().map(|x| x.to_string()).collect();
+            format!(
+                "ok cells={} size={size} dnum={dnum} sk={} sklwein={} words={} e={} obj={}",
+                cells.len(),
+                show_scalar(&sk_vis),
+                sklwe.join(","),
+                words.join(","),
+                errs.join(";"),
+                cells.join("/")
+            )
+        }
+    };
+}
+
+brkkeys_backend!(brkkeys_fft64ref, FFT64Ref);
+brkkeys_backend!(brkkeys_ntt120ref, NTT120Ref);
+brkkeys_backend!(brkkeys_fft64avx, FFT64Avx);
+brkkeys_backend!(brkkeys_ntt120avx, NTT120Avx);
+
 fn groups_of(be: &str, lay: &str, t: &[&str], sxs: u64, sxa: u64, sxe: u64) -> Vec<Group> {
     if matches!(lay, "brk" | "brkc" | "cbt" | "bdd") {
         return match be {
@@ -523,6 +605,12 @@ fn run_case(op: &str, t: &[&str]) -> String {
     let lay = kv(t, "layout").unwrap_or("cbt").to_string();
     let (sxs, sxa, sxe) = (kv_u64(t, "sxs"), kv_u64(t, "sxa"), kv_u64(t, "sxe"));
     match op {
+        "brk_keys" => match be.as_str() {
+            "ntt120ref" => brkkeys_ntt120ref(t),
+            "fft64avx" => brkkeys_fft64avx(t),
+            "ntt120avx" => brkkeys_ntt120avx(t),
+            _ => brkkeys_fft64ref(t),
+        },
         "brkc_check" => match be.as_str() {
             "ntt120ref" => brkc_ntt120ref(t),
             "fft64avx" => brkc_fft64avx(t),
